@@ -104,6 +104,40 @@ def check(chk):
     pr_, pm_ = _tpairs(reg_, {"add_switch_handler_obj", "add_switch_handler"}), _tpairs(rem_, {"remove_switch_handler", "remove_switch_handler_obj"})
     chk.ob("PAIR-9", "the tilt mode removes exactly the (switch tag, callback) pairs it registered", pr_ == pm_ and len(pr_) >= 3, rem_.where(),
            detail="registered %s, removed %s" % (sorted(map(str, pr_)), sorted(map(str, pm_))), construct=rem_.ident, text="tilt switch handler pairs")
+    # the switch controller finds a handler by (callback, state, hold time): a device or mode that registered a handler with a hold time removes it
+    # with that same hold time - with the default (0) the removal finds nothing and the handler outlives the mode
+    def _sw_calls(c_, names):
+        out = []
+        for m_ in c_.methods.values():
+            for x in m_.calls():
+                a_ = call_attr(x)
+                if a_ not in names or not isinstance(x.func, ast.Attribute):
+                    continue
+                if a_ in ("add_handler", "remove_handler") and "events" in src(x.func.value):
+                    continue
+                cb = kwarg(x, "callback")
+                if cb is None and x.args:
+                    cb = x.args[0] if a_ in ("add_handler", "remove_handler") else (x.args[1] if len(x.args) > 1 else None)
+                ms = kwarg(x, "ms")
+                out.append((m_, x, src(cb) if cb is not None else None, src(ms) if ms is not None else "0"))
+        return out
+    n_tp = 0
+    for c_ in list(chk.repo.all_classes("mpf/devices/")) + list(chk.repo.all_classes("mpf/modes/")):
+        adds = [t for t in _sw_calls(c_, {"add_handler", "add_switch_handler", "add_switch_handler_obj"}) if t[3] != "0" and t[2]]
+        if not adds:
+            continue
+        rems = _sw_calls(c_, {"remove_handler", "remove_switch_handler", "remove_switch_handler_obj"})
+        for m_, x, cb, ms in adds:
+            for rm_, rx, rcb, rms in rems:
+                if rcb != cb:
+                    continue
+                n_tp += 1
+                chk.analysed(m_, rm_)
+                chk.ob("PAIR-9", "%s removes the timed switch handler %s with the hold time it was registered with (%s)" % (c_.name, cb, ms), rms == ms,
+                       rm_.where(rx), detail="registered with ms=%s in %s, removed with ms=%s: handlers are matched by (callback, state, ms), the removal "
+                       "finds nothing and the handler outlives the mode" % (ms, m_.name, rms), construct=rm_.ident,
+                       text="timed handler %s removed with ms=%s, registered with ms=%s" % (cb, rms, ms))
+    chk.ob("PAIR-9", "timed switch handler add/remove pairs found (%d)" % n_tp, n_tp >= 1, "mpf/devices:1", text="timed handler pairs present")
     # the start callback belongs to one start request: every accepted start stores the callback it was given (None included), so a callback of
     # an earlier cycle cannot fire for a later start
     stf = chk.repo.func(MD, "Mode.start")
